@@ -100,6 +100,14 @@ func corpus() []corpusCase {
 		{single(worldCfg{Secure: true, Replace: true}), 0, scenario{Name: "plain-http", Class: "LSignIn"}, reqShape{Host: "app.example.test", Target: "//evil.test/%2e%2e"}},
 		{single(worldCfg{Secure: true, Replace: true}), 0, scenario{Name: "absolute-https", Class: "LRobots"}, reqShape{Host: "app.example.test", Target: "https://app.example.test/robots.txt"}},
 		{single(worldCfg{Secure: true, Replace: true}), 0, scenario{Name: "absolute-http", Class: "LRobots"}, reqShape{Host: "app.example.test", Target: "http://app.example.test/robots.txt"}},
+		// client-controlled X-Forwarded-Host: the redirect goes to the host the request was addressed to
+		{single(worldCfg{Secure: true, Replace: true}), 0, scenario{Name: "plain-http-xfh", Class: "LSignIn"}, reqShape{Host: "app.example.test", Target: "/x?y=1", XFH: []string{"evil.test"}}},
+		{single(worldCfg{Secure: true, Replace: false}), 0, fw(script{Status: 200}), reqShape{Host: "app.example.test:8080", Target: "/get", XFP: []string{"http"}, XFH: []string{"evil.test:8443", "app.example.test:8080"}}},
+		{single(worldCfg{Secure: true, Replace: true}), 0, scenario{Name: "absolute-http-xfh", Class: "LRobots"}, reqShape{Host: "app.example.test", Target: "http://app.example.test/robots.txt", XFH: []string{"user@evil.test"}}},
+		{single(worldCfg{Secure: true, Replace: true}), 0, fw(script{Status: 200}), reqShape{Host: "app.example.test", Target: "/", XFP: https, XFH: []string{"evil.test"}}},
+		// a session too large for one cookie, saved again after revalidation: every cookie carries the configured flags
+		{single(worldCfg{Secure: true, Replace: true}), 0, scenario{Name: "forwarded-after-revalidation-big", User: true, Big: true, Cookies: []string{ckS(false)}, Script: script{Status: 200}}, std},
+		{single(worldCfg{Secure: false, Replace: false}), 0, scenario{Name: "forwarded-after-revalidation-big", User: true, Big: true, Cookies: []string{ckS(false)}, Script: script{Status: 200}}, reqShape{Host: "app.example.test:8080", Target: "/"}},
 		// list-valued X-Forwarded-Proto: anything but the exact string "https" is a plain-http request (redirected, upstream not called)
 		{single(worldCfg{Secure: true, Replace: true}), 0, fw(script{Status: 200}), reqShape{Host: "app.example.test", Target: "/get?a=1&b=2", XFP: []string{"http, https"}}},
 		{single(worldCfg{Secure: true, Replace: false}), 0, fw(script{Status: 200}), reqShape{Host: "app.example.test", Target: "/get", XFP: []string{"http,https"}}},
